@@ -24,6 +24,10 @@ func execLongestPath(g *graph.DGraph) {
 	for _, n := range nodes {
 		followLongestPath(n, height, &nlayers)
 	}
+	// layers can only be assigned once the total number of layers is known
+	for _, n := range g.Nodes {
+		n.Layer = nlayers - height[n]
+	}
 }
 
 func followLongestPath(n *graph.Node, height graph.NodeIntMap, nlayers *int) int {
@@ -41,7 +45,6 @@ func followLongestPath(n *graph.Node, height graph.NodeIntMap, nlayers *int) int
 		nodeh = max(nodeh, h+e.Delta)
 	}
 	*nlayers = max(*nlayers, nodeh)
-	n.Layer = *nlayers - nodeh
 	height[n] = nodeh
 	return nodeh
 }
